@@ -58,7 +58,7 @@ def run(ck, facts, tier):
         date = Sym("payload", vkey(first), 0)
         all_some = vkey(Sym("forall", vkey(RATES), vkey(Sym("optcase", "map_or", vkey(dset), (vkey(Sym("bool", "false")),),
                                                                 vkey(cel.eq_sym(Sym("payload", vkey(dset), 0), date))))))
-        all_none = vkey(Sym("forall", vkey(RATES), vkey(Sym("optcase", "map_or", vkey(dset), (vkey(Sym("bool", "true")),), vkey(Sym("bool", "false"))))))
+        all_none = vkey(Sym("forall", vkey(RATES), vkey(Sym("m", "is_none", vkey(dset), ()))))
         ps = paths.flatten(got)
         errs = [(dict(c), v) for c, v in ps if isinstance(v, Sym) and v.tag[:2] == ("ctor", "Err")]
         oks = [(dict(c), v) for c, v in ps if isinstance(v, Sym) and v.tag[:2] == ("ctor", "Ok")]
